@@ -68,7 +68,7 @@ NOT_APPLICABLE = {
 # properties whose check is planned in DESIGN.md but not built yet in this revision
 PENDING = {k: "check not built yet in this revision of /verif (planned, DESIGN.md §4); not claimed until it exists"
            for k in ["C04", "C05", "C07", "C08", "C12", "C14", "C16",
-                     "C18", "C19"]}
+                     "C18"]}
 
 
 def _add(p):
@@ -197,7 +197,8 @@ _add(Prop(
                "channel_mut, EQUILIBRIUM, CHANNELS", "Channels/ChannelsRef/ChannelsMut::{next, len}",
                "impl Frame for the 14 bare sample types (mono)"],
     bounds="samples: every value of every format, every offset/gain whose mathematical result stays in range (general "
-           "mul_amp: f32-companion formats quick, f64-companion formats thorough); frames: S=u8 at N in "
+           "mul_amp: i8/i16/I24/u8/u16/U24/f32 quick; i32/u32/i64/f64 thorough; I48/U48/u64 thorough with gains restricted to "
+           "f32-representable values - the full-f64-gain queries for those three did not finish in 2400 s); frames: S=u8 at N in "
            "{1,2,3,4,8,31,32} quick and every N in 1..=32 thorough, all 14 formats at N in {1,2}; per-channel "
            "assertions at a symbolic channel index; loops unwound N+2",
     outside="frame widths/formats not instantiated (the impl is one const-generic function, but each N is a separate "
@@ -208,6 +209,7 @@ _add(Prop(
         {"match": r"s_(i32|u32|i48|i64|u48|u64|f64)::mul_amp_general", "tier": "thorough", "timeout": 2400},
         {"match": r"frame_u8_n(8|31|32)::scale_ops", "tier": "thorough", "timeout": 1200},
         {"match": r"frame_(i48|i64|u48|u64)_n2::scale_ops", "tier": "thorough", "timeout": 1200},
+        {"match": r"frame_f64_n2::ops|mono::mono_(u64|i64|f64)", "tier": "thorough", "timeout": 2400},
         {"match": r"frame_u8_n(5|6|7|9|1\d|2\d|30)::", "tier": "thorough", "timeout": 1200},
     ],
     design_ref="DESIGN.md §4 C03",
@@ -335,4 +337,31 @@ _add(Prop(
           "ConstHz/Hz steps are frequency/rate; saw == 1-2*phase and square == +-1 by half-cycle at every phase; sine is "
           "sin evaluated once at 2*pi*phase and stays in [-1,1]; for every u64 seed noise lies in (-1,1], equals an "
           "integer reference of the hash, and is a pure function of seed+index (clone, restart, shifted seed).",
+))
+
+
+_add(Prop(
+    "C19", "c19_envelope", "c19",
+    functions=["dasp_peak::{full_wave, positive_half_wave, negative_half_wave}, Rectifier impls of FullWave / "
+               "PositiveHalfWave / NegativeHalfWave (14 formats, mono and [S;2])",
+               "dasp_envelope::Detector::{new, peak*, rms, verif_with_gains (hook), verif_state (hook), set_attack_frames, "
+               "set_release_frames, next}, calc_gain, Peak::detect, Rms::detect",
+               "dasp_signal::envelope::{SignalEnvelope::detect_envelope, DetectEnvelope::{next, set_*, is_exhausted, into_parts}}"],
+    bounds="rectifiers: every value of all 14 formats (full-wave under 'negated amplitude representable'), mono and 2 "
+           "channels; envelope: ONE step from any previous envelope, any input frame and any attack/release gains in [0,1] "
+           "for i16 and u8 (positive half-wave), [i16;2] (full-wave) and f32 (full-wave) - quick tier: gains on the grid "
+           "k/256 and (f32 format) 12-bit mantissas, thorough tier: any f32 gain / value; gains/setters with powf replaced "
+           "by a recording marker; adaptor: 2 frames",
+    outside="the numeric value of exp(-1/n) (libm; CBMC's powf is unconstrained); monotone convergence over long constant "
+            "inputs (follows from the step relation with 0 <= gain <= 1, not separately decided); i64/f64 envelope steps; "
+            "negative half-wave envelope steps",
+    stubs=["dasp_envelope::detect::ops::f32::powf32 -> recording marker (gains::*)", "dasp_sample::ops::f32::sqrt -> x+1 marker (rms_detector_wiring)"],
+    assumptions=["envelope step harnesses assume the previous envelope lies on the rectifier's side of equilibrium - an "
+                 "invariant they also show to be preserved", "gains are assumed to lie in [0, 1] (exp(-1/n) for n > 0, or 0)"],
+    design_ref="DESIGN.md §4 C19",
+    claim="Every rectifier output equals |amp|, max(amp,0), min(amp,0) per channel for every value of every format; one "
+          "envelope step from any state equals detected + gain*(previous - detected) in the format's own arithmetic "
+          "(bit-level reference), picks the attack gain exactly when the detected value exceeds the previous envelope, "
+          "never leaves [previous, detected], equals the detected value for gain 0, and stores its output as the new "
+          "state; gains are e^(-1/frames) (0 for zero frames), land in their own slots and setters leave the envelope alone.",
 ))
